@@ -36,13 +36,13 @@ func roundN(x *big.Rat, scale int64) []int {
 //
 // Scores are in tenths, offset by Off where they may be negative.
 type V2 struct {
-	Base   [729][]int      // admissible base scores
-	Adj    [729][64][]int  // admissible adjusted base scores (specification)
-	AdjNeg [729][64]bool   // the specification's adjusted base equation is negative
-	AdjD1  [729][64][]int  // deviation model D1: adjusted impact rounded to two decimals first
-	Temp   [151][101][]int // [b+Off][ti]
+	Base   [729][]int       // admissible base scores
+	Adj    [729][64][]int   // admissible adjusted base scores (specification)
+	AdjNeg [729][64]bool    // the specification's adjusted base equation is negative
+	AdjD1  [729][64][]int   // deviation model D1: adjusted impact rounded to two decimals first
+	Temp   [151][101][]int  // [b+Off][ti]
 	Env    [6][5][151][]int // [cdp][td][adjusted temporal + Off]
-	Ties   int             // number of table entries with two admissible values
+	Ties   int              // number of table entries with two admissible values
 }
 
 const Off = 50
